@@ -30,6 +30,7 @@ def run(chk, tier, seed):
             items.append(('C08', 'C08.lang.translate==compile', g.path_pattern(3, 3, 1), r.choice(gl_flags) | G.U, r.random() < 0.2, 'glob', chk.known))
     counts, secs = LC.run_items(chk, LC.translate_item, items)
     empty_exclude_clause(chk)
+    nodir_twins(chk)
     chk.rule = ('one case = one (pattern, flags, str|bytes, fnmatch|glob): every regex of translate() compiles, is language-equal (ALL names) to the regex compile_pattern() builds for '
                 'the same call, and has as many capturing groups as the pattern has extended groups (nested ones included); patterns from the C01/C02 sets plus seeded random ones')
     chk.bounds.update(dict(c08_items=len(items), c08_outcomes=counts, worker_seconds=round(secs, 1)))
@@ -71,3 +72,21 @@ def empty_exclude_clause(chk):
                                       f"import sys; sys.path.insert(0, {REPO!r})\nfrom wcmatch import {nm}, _wcparse\nprint({nm}.translate({p!r}, flags={fl | api.U}, exclude={ex!r}))\n"
                                       f"print(_wcparse.compile_pattern({p!r}, {nm}._flag_transform({fl | api.U}), exclude={ex!r}))\nsys.exit(1)\n")
     chk.bounds.update(dict(c08_exclude_cases=n))
+
+
+def nodir_twins(chk):
+    """finite, exact: the NODIR exclusion regex text that translate() returns denotes the language of the compiled regex the matchers use (4 twins)"""
+    from vlib import relang as R
+    W = LC.W
+    for tname, cname in (('_NO_NIX_DIR', 'RE_NO_DIR'), ('_NO_WIN_DIR', 'RE_WIN_NO_DIR')):
+        for idx, kind in ((0, 'str'), (1, 'bytes')):
+            ob = f'C08:finite.{tname}[{kind}]_is_the_text_of_{cname}[{kind}]'
+            try:
+                r = R.equal(R.Impl(getattr(W, tname)[idx]), R.Impl(getattr(W, cname)[idx]))
+            except Exception as e:
+                chk.leave_open(ob, e)
+                continue
+            chk.obligation(ob, 'proved' if r is None else 'refuted', 'finite', 0.0, function='_wcparse.' + tname)
+            if r is not None:
+                w = R.to_str(r[0], idx == 1)
+                chk.violation(dict(obligation=ob, witness=w), f'_wcparse.{tname}[{idx}] (what translate returns for NODIR) and _wcparse.{cname}[{idx}] (what the matchers use) differ on {w!r}', None, no_input=True)
